@@ -141,7 +141,7 @@ func C19(h ProxyHooks) func(*hx.Ctx) *hx.Outcome {
 		if c.Detail {
 			o.Sample.(map[string]any)["message_log_disk"] = disk.Describe()
 		}
-		preStart := nearMidnight(t, o)
+		preStart := nearMidnight(t, o, s)
 		verdict := s.Run(func() {
 			preStart()
 			h.Setup(c.TempDir())
